@@ -130,6 +130,9 @@ class Book:
             what = {b'token_not_back_after_process_exit':
                     'the compiler process has exited but its job token did not come back within the bound '
                     '(something it started still holds its stdout/stderr; the token must not wait for that)',
+                    b'token_held_without_process_or_spawn_error':
+                    'a request holds a job token but neither started its compiler process nor reported the spawn failure '
+                    'within the bound (the executable cannot be started: the token must go back at once)',
                     b'token_released_while_process_runs': 'the job token was given back while the compiler process was still running',
                     }.get(e[1] if len(e) > 1 else b'', None)
             self.vs.append('%s: %s' % (where, what or ('unexpected event ' + sx.dumps(e))))
@@ -164,7 +167,7 @@ def gen_det(rng, n, maxlen):
                     r = nxt
                     nxt += 1
                     used.append(r)
-                ops.append([b'req', r, rng.weighted([(0, 8), (1, 2), (2, 1), (3, 1), (4, 2), (5, 2), (6, 1), (7, 1), (8, 1)])])
+                ops.append([b'req', r, rng.weighted([(0, 8), (1, 2), (2, 1), (3, 1), (4, 2), (5, 2), (6, 1), (7, 1), (8, 1), (9, 1), (10, 1), (11, 1), (12, 3)])])
             elif kind == 'poll':
                 ops.append([b'poll'])
             else:
@@ -184,6 +187,12 @@ def gen_det_exhaustive(depth):
     alpha2 = [[b'req', 1, 1], [b'req', 2, 2], [b'req', 3, 0], [b'poll'], [b'wait', 1], [b'drop', 2], [b'drop', 1]]
     for d in range(1, min(depth, 3) + 1):
         for seq in itertools.product(alpha2, repeat=d):
+            out.append([1, [list(o) for o in seq]])
+    # compilers that cannot be started: busy executable (ETXTBSY), not executable, a directory, bad interpreter
+    alpha4 = [[b'req', 1, 12], [b'req', 2, 9], [b'req', 3, 10], [b'req', 4, 11], [b'req', 5, 1], [b'req', 6, 0], [b'poll'],
+              [b'wait', 5], [b'drop', 6]]
+    for d in range(1, min(depth, 3) + 1):
+        for seq in itertools.product(alpha4, repeat=d):
             out.append([1, [list(o) for o in seq]])
     # compilers that exit (0 / 1) while something they started keeps their stdout+stderr
     alpha3 = [[b'req', 1, 4], [b'req', 2, 5], [b'req', 3, 0], [b'poll'], [b'wait', 1], [b'wait', 2], [b'finish', 1],
@@ -266,7 +275,7 @@ def neighbours_det(case):
             yield [kk, ops]
     for i, op in enumerate(ops):
         if op[0] == b'req':
-            for kind in (0, 1, 2, 3, 4, 5):
+            for kind in (0, 1, 2, 3, 4, 5, 12):
                 if kind != op[2]:
                     yield [k, ops[:i] + [[b'req', op[1], kind]] + ops[i + 1:]]
 
@@ -311,7 +320,7 @@ def gen_mt(rng, n, maxreq):
         workers = rng.choice([1, 2, 4])
         reqs = []
         for i in range(rng.range(k + 1, maxreq)):
-            kind = rng.weighted([(0, 6), (1, 3), (2, 2), (3, 1), (4, 2), (5, 2), (6, 1), (7, 1), (8, 1)])
+            kind = rng.weighted([(0, 6), (1, 3), (2, 2), (3, 1), (4, 2), (5, 2), (6, 1), (7, 1), (8, 1), (9, 1), (10, 1), (11, 1), (12, 3)])
             delay = rng.choice([0, 0, rng.below(3000), rng.below(12000)])
             dur = rng.range(1, 12)
             cancel = 0
@@ -344,7 +353,7 @@ def monitor_mt(case, out):
             vs.append('request %d neither finished nor was cancelled' % r)
     for r, how in b.ended.items():
         if r in plan and plan[r][4] == 0:
-            want = {0: 'drop_held', 3: 'spawn_fail'}.get(plan[r][2], 'exit')
+            want = {0: 'drop_held', 3: 'spawn_fail', 9: 'spawn_fail', 10: 'spawn_fail', 11: 'spawn_fail', 12: 'spawn_fail'}.get(plan[r][2], 'exit')
             if how != want:
                 vs.append('request %d (never cancelled) ended by %s instead of %s' % (r, how, want))
     if b.draining and not stuck:
@@ -521,6 +530,11 @@ exit $rc
 """
 
 
+# a compiler whose FIRST preprocessor run (the server's "what kind of compiler is this" probe) takes 12 s
+SLOW_WRAPPER = WRAPPER.replace('sleep "${C16_SLEEP:-0.05}"',
+                               'if [ "$K" = E ] && [ ! -e "$0.probed" ]; then : > "$0.probed"; sleep 12; else sleep "${C16_SLEEP:-0.05}"; fi')
+
+
 def free_port():
     s = socket.socket()
     s.bind(('127.0.0.1', 0))
@@ -577,7 +591,7 @@ def read_ledger(path):
     return mx, ent, lef, kinds_at_max
 
 
-def e2e_run(rep, binp, rng, tier, idx, makeflags='none', nbursts=2, gc_phase=True):
+def e2e_run(rep, binp, rng, tier, idx, makeflags='none', nbursts=2, gc_phase=True, slow_phase=False):
     """One real server under `taskset -c 0-2`.  makeflags: what the server's (and the clients') environment says about a
     jobserver of the surrounding build: none | fifo (live named fifo with 31 tokens) | fds (inherited pipe pair)."""
     root = '/dev/shm/c16e2e-%d-%d' % (os.getpid(), idx)
@@ -625,7 +639,7 @@ def e2e_run(rep, binp, rng, tier, idx, makeflags='none', nbursts=2, gc_phase=Tru
         open(p, 'w').write(body)
         return p
 
-    def client(path, sleep, shape=''):
+    def client(path, sleep, shape='', cc=cc):
         e = dict(env)
         e['C16_SLEEP'] = sleep
         if shape:
@@ -768,6 +782,30 @@ def e2e_run(rep, binp, rng, tier, idx, makeflags='none', nbursts=2, gc_phase=Tru
             if mxg > tokens:
                 problems.append('gc phase: %d processes at once with %d tokens' % (mxg, tokens))
 
+        if slow_phase and not problems:
+            # compilers that answer the server's detection probe only after 12 s, one per token, with ordinary requests
+            # queued behind them: whatever the server does about slow probes (time-outs ...), a probe process that is
+            # still running counts - never more processes than tokens
+            open(ledger, 'w').close()
+            slow = []
+            for i in range(tokens):
+                scc = os.path.join(root, 'slowcc%d' % i)
+                open(scc, 'w').write(SLOW_WRAPPER % {'ledger': ledger})
+                os.chmod(scc, 0o755)
+                slow.append(client(new_source('ok'), '0.05', cc=scc))
+            time.sleep(1.0)
+            rest = [client(new_source('ok'), '0.05') for _ in range(2 * tokens)]
+            hung = finish_all(slow + rest, 120)
+            if hung:
+                problems.append('slow-probe phase: %d client(s) did not finish within 120 s' % hung)
+            wait_idle(60)
+            mxs, _, _, kam = read_ledger(ledger)
+            info['slow_probe_max_concurrency'] = mxs
+            if mxs > tokens:
+                problems.append('slow compiler-detection probes: %d compiler/preprocessor processes ran at once with %d job tokens '
+                                '(kinds %s): a probe process kept running after its token had been given to another request'
+                                % (mxs, tokens, kam))
+
         # saturating burst: full parallelism must be reachable again (no token lost to the history above)
         reached = 0
         for sleep in ('0.4', '1.5'):
@@ -818,9 +856,9 @@ def extra(rep, known):
     binp = pipeline.repo_bin('sccache')
     rng = pipeline.Rng(rep.seed).fork('C16:e2e')
     if rep.tier == 'quick':
-        plan = [dict(makeflags='none', nbursts=2, gc_phase=True), dict(makeflags='fifo', nbursts=1, gc_phase=False)]
+        plan = [dict(makeflags='none', nbursts=2, gc_phase=True, slow_phase=True), dict(makeflags='fifo', nbursts=1, gc_phase=False)]
     else:
-        plan = [dict(makeflags='none', nbursts=6, gc_phase=True), dict(makeflags='fifo', nbursts=3, gc_phase=True),
+        plan = [dict(makeflags='none', nbursts=6, gc_phase=True, slow_phase=True), dict(makeflags='fifo', nbursts=3, gc_phase=True),
                 dict(makeflags='fds', nbursts=2, gc_phase=False), dict(makeflags='none', nbursts=6, gc_phase=True)]
     t0 = time.time()
     allp = []
@@ -844,5 +882,5 @@ def extra(rep, known):
                     'undeclared identifier), compilers that print 300 kB of diagnostics or die of SIGKILL, ~25% clients SIGKILLed '
                     '20-250 ms into the request; monitor: concurrency in the ledger <= tokens at every line; then `tokens` compilers '
                     'that exit leaving a background process on their stdout/stderr: 2*tokens later requests must run within 40 s '
-                    'while those pipes are still held; finally a saturating burst of 3*tokens clients must reach exactly the token '
+                    'while those pipes are still held; then one compiler per token whose detection probe takes 12 s with 2*tokens ordinary requests queued behind (ledger bound); finally a saturating burst of 3*tokens clients must reach exactly the token '
                     'count (retried once with longer sleeps before it is reported)')
